@@ -266,7 +266,8 @@ pub fn run(args: &[String]) {
                 continue;
             }
             let (cp, cq) = (choices(p), choices(q));
-            let combos: Vec<(usize, usize)> = if tier == Tier::Thorough { vec![(0, 2), (1, 3), (0, 1), (1, 0), (0, 0)] } else { vec![(0, 2), (0, 1)] };
+            // every pair combination in both tiers (distinct packages, one package at two versions in both orders, the same reference twice)
+            let combos: Vec<(usize, usize)> = vec![(0, 2), (1, 3), (0, 1), (1, 0), (0, 0)];
             for (a, b) in combos {
                 cases.push((format!("{}+{}", POSITIONS[p].name, POSITIONS[q].name), render(own, &[slot(p, &cp[a]), slot(q, &cq[b])], ""), false));
             }
